@@ -415,7 +415,7 @@ fn explore_shard(cli: &Cli, shard: usize, nshards: usize, rng: &mut Rng, st: &mu
         }
     }
     // (2) random programs
-    let per = cli.n(6_000, 60_000);
+    let per = cli.n(6_000, 250_000);
     for _ in 0..per {
         if cli.expired() {
             st.count("stopped_by_time_budget");
